@@ -57,7 +57,7 @@ fn hx(b: &[u8]) -> String { if b.len() > 96 { format!("{}..({} bytes)", hex::enc
 pub struct Acc { pub tried: u64, pub found: Vec<Value> }
 impl Acc {
     fn hit(&mut self, suite: &str, what: &str, detail: Value) {
-        if self.found.len() < 8 { self.found.push(json!({"suite": suite, "what": what, "detail": detail})); }
+        if self.found.len() < 256 { self.found.push(json!({"suite": suite, "what": what, "detail": detail})); }
     }
 }
 
@@ -576,6 +576,51 @@ macro_rules! gen_c12dec {
                     }
                 }
             }
+            Ok(())
+        })();
+        if let Err(e) = r { acc.hit(stringify!($cs), "setup failed", json!({"error": format!("{:?}", e)})); }
+    }};
+}
+/// C10 on the serde path: the four messages that START with an OPRF group element, written through bincode (fixed arrays, no framing), with every
+/// other value of the element's first byte: an accepted alias that re-encodes differently is a finding (identified by decoder and tag byte)
+macro_rules! gen_c10serde {
+    ($cs:ident, $acc:expr) => {{
+        let acc: &mut Acc = $acc;
+        let mut rng = StdRng::seed_from_u64(10500);
+        let p = Params { pw: b"pw", cred: b"id", idu: None, ids: None, ctx: None };
+        let r = (|| -> Result<(), ProtocolError> {
+            let setup = ServerSetup::<$cs>::new(&mut rng);
+            let c = ClientRegistration::<$cs>::start(&mut rng, p.pw)?;
+            let rreq = c.message.clone();
+            let s = ServerRegistration::<$cs>::start(&setup, c.message, p.cred)?;
+            let rresp = s.message.clone();
+            let f = c.state.finish(&mut rng, p.pw, s.message, ClientRegistrationFinishParameters::default())?;
+            let file = ServerRegistration::<$cs>::finish(f.message);
+            let cl = ClientLogin::<$cs>::start(&mut rng, p.pw)?;
+            let creq = cl.message.clone();
+            let sl = ServerLogin::<$cs>::start(&mut rng, &setup, Some(file), cl.message, p.cred, ServerLoginStartParameters::default())?;
+            let cresp = sl.message.clone();
+            macro_rules! alias {
+                ($ty:ty, $name:expr, $v:expr) => {{
+                    let native = $v.serialize().to_vec();
+                    if let Ok(b) = bincode::serialize(&$v) {
+                        if b.len() == native.len() && b == native {
+                            for tag in 0u8..=255 { if tag != b[0] {
+                                acc.tried += 1;
+                                let mut b2 = b.clone(); b2[0] = tag;
+                                if let Ok(m) = bincode::deserialize::<$ty>(&b2) {
+                                    let re = m.serialize().to_vec();
+                                    if re != b2 { acc.hit(stringify!($cs), "serde: an alias encoding of the leading OPRF element is accepted and re-encodes differently", json!({"decoder": $name, "tag": tag, "reencoded_tag": re[0], "path": "bincode"})); }
+                                }
+                            } }
+                        }
+                    }
+                }};
+            }
+            alias!(RegistrationRequest<$cs>, "RegistrationRequest", rreq);
+            alias!(RegistrationResponse<$cs>, "RegistrationResponse", rresp);
+            alias!(CredentialRequest<$cs>, "CredentialRequest", creq);
+            alias!(CredentialResponse<$cs>, "CredentialResponse", cresp);
             Ok(())
         })();
         if let Err(e) = r { acc.hit(stringify!($cs), "setup failed", json!({"error": format!("{:?}", e)})); }
@@ -1219,6 +1264,7 @@ fn run_inner(gen: &str) -> Value {
         "c08" => { all_suites!(gen_c08, &mut acc); }
         "c10" => { all_suites!(gen_c10, &mut acc); key_length_probes(&mut acc); }
         "c12" => { all_suites!(gen_c12, &mut acc); all_suites!(gen_c12dec, &mut acc); }
+        "c10serde" => { all_suites!(gen_c10serde, &mut acc); }
         "c13" => { all_suites!(gen_c13, &mut acc); }
         "c11" | "c19" => { group_probes(&mut acc); }
         "c18ext" => { external_key_probe(&mut acc); }
